@@ -6,7 +6,9 @@ from ..util import (stores, lv_field, is_call, calls_in, refs, fact_list,
 # field -> (functions allowed to store the field itself, functions allowed to store
 # elements reached through it)
 LBUF_WRITERS = {
-    "useq_zero": ({"lbuf_saved"}, set()),
+    # lbuf_unsaved (added by the D5 repair) may only make the buffer dirty: it stores a
+    # negative constant, which no sequence number ever equals
+    "useq_zero": ({"lbuf_saved", "lbuf_unsaved"}, set()),
     "useq_last": ({"lbuf_saved"}, set()),
     "useq": ({"lbuf_make", "lbuf_modified"}, set()),
     "hist_u": ({"lbuf_opt", "lbuf_undo", "lbuf_redo", "lbuf_saved"}, set()),
@@ -90,6 +92,12 @@ def rule_S1(ctx):
                     ctx.violation(f.name, "store useq", "the command counter must only "
                                   "be incremented in lbuf_modified (found %s)" % op, f.loc(n))
                     continue
+            if field == "useq_zero" and f.name != "lbuf_saved":
+                if not (op == "=" and cval(rhs) is not None and cval(rhs) < 0):
+                    ctx.violation(f.name, "store useq_zero", "outside lbuf_saved the saved mark "
+                                  "may only be set to a negative constant (always dirty); "
+                                  "found %s %s" % (op, key(rhs)), f.loc(n))
+                    continue
             if field == "useq" and f.name == "lbuf_make":
                 if op != "=" or cval(rhs) is None:
                     ctx.violation(f.name, "store useq", "initial command counter is not a constant",
@@ -123,6 +131,13 @@ def rule_S1(ctx):
     sv = prog.func("lbuf_saved")
     zs = [n for n, lv, op, rhs in stores(sv.body)
           if op != "init" and lv_field(lv) and lv_field(lv)[1] == "useq_zero"]
+    # sequence numbers are never negative: the counter starts positive and only grows,
+    # useq_last is a copy of it (so lbuf_unsaved's negative constant matches nothing)
+    for f2, n2, field2, elem2, op2, rhs2 in fs:
+        if field2 == "useq_last" and not (rhs2 is not None and rhs2["k"] == "member"
+                                          and rhs2["field"] == "useq"):
+            ctx.violation(f2.name, "store useq_last", "useq_last is not a copy of the command "
+                          "counter (%s)" % key(rhs2), f2.loc(n2))
     if not zs:
         raise AnalysisBroken("lbuf_saved does not store useq_zero")
     bumps = [c for c in sv.calls("lbuf_modified")]
